@@ -551,8 +551,8 @@ IMPORTS = 'From JugV Require Import Model.Options Gen.OptionTable.\nLocal Open S
 CASE_TYPE = 'cmdline * config * string * outcome'
 
 
-def setup(ck):
-    tab = TR.table()
+def setup(ck, lenient=False):
+    tab = TR.table(lenient=lenient)
     cmdapi._commands.load_commands()
     loaded = sorted(cmdapi._commands)
     subs = [s for s in tab['subcommands'] if s in loaded]
@@ -579,9 +579,9 @@ def run(ck):
     proved = ck.prove()
     # the model and the generated table are needed for the tie even when a proof broke
     rc, out = core.make(['Gen/OptionTable.vo'])
-    if rc != 0:
+    coq_ok = rc == 0
+    if not coq_ok:
         ck.broken.append('Gen/OptionTable.v does not compile: ' + out[-400:].replace('\n', ' | '))
-        return
     ck.trusted_base = core.DEFAULT_TRUSTED_BASE + [
         'C20: argparse itself (how a token list is split into options and positional words) is outside the model; the harness '
         'renders each structured command line only in shapes whose reading is unambiguous and the outcome is compared',
@@ -590,7 +590,18 @@ def run(ck):
     ]
     ck.assumptions = ['strings are printable ASCII; %-formatting is modelled for literal text, %% and %(key)s only',
                       'argparse prefix abbreviations of option names and -h/--help are not modelled (not generated)']
-    tab, g, keys = setup(ck)
+    try:
+        tab, g, keys = setup(ck)
+    except TR.TranslateError as e:
+        # the strict translation failed (already recorded by prove()): the Coq tie cannot run, but the search for a
+        # concrete failing input can - with the option table extracted leniently and the harness's own restatement
+        # of the precedence rule as oracle (DESIGN.md 1.4 step 4)
+        coq_ok = False
+        try:
+            tab, g, keys = setup(ck, lenient=True)
+        except TR.TranslateError as e2:
+            ck.broken.append('option table cannot be extracted even leniently: %s' % e2)
+            return
     defaults = live_defaults(keys)
     preamble = 'Definition obs_keys : list string := %s.' % listlit([cs(k) for k in keys])
     lits, metas = [], []
@@ -696,7 +707,7 @@ def run(ck):
             ck.count('same-project:%s' % (k[0] if len(k) == 1 else 'one-location'))
 
     # ------------------------------------------------------------ evaluate the model on everything observed
-    fails = ck.cases('options', IMPORTS, CASE_TYPE, CHK, lits, shard=ck.n(160, 400), preamble=preamble)
+    fails = ck.cases('options', IMPORTS, CASE_TYPE, CHK, lits, shard=ck.n(160, 400), preamble=preamble) if coq_ok else None
     for i in (fails or []):
         ck.violation({'kind': 'correspondence', 'what': 'Model.Options.run and jug.options.parse disagree (%s)' % metas[i]['family'],
                       'case': metas[i], 'coq_case': lits[i], 'obs_keys': keys})
@@ -713,7 +724,7 @@ def run(ck):
                               'expected': list(py_backend(s)), 'observed': list(b)})
             sel_cases.append('(%s, %s)' % (cs(s), backend_lit(b)))
     fails = ck.cases('select', IMPORTS, 'string * backend',
-                     'fun x => backend_eqb (backend_of (fst x)) (snd x)', sel_cases)
+                     'fun x => backend_eqb (backend_of (fst x)) (snd x)', sel_cases) if coq_ok else None
     for i in (fails or []):
         ck.violation({'kind': 'correspondence', 'what': 'Model.Options.backend_of and backends.select disagree', 'coq_case': sel_cases[i]})
 
